@@ -80,7 +80,7 @@ def parse_output(out, names):
 
 def run_harnesses(set_name, tier='quick', prop=None):
     hs = [h for h in KS.SETS[set_name] if tier == 'thorough' or KS.HARNESSES[h].get('tier', 'quick') == 'quick']
-    modules = sorted(set(KS.HARNESSES[h]['module'] for h in hs))
+    modules = sorted(set([KS.HARNESSES[h]['module'] for h in hs] + [m for h in hs for m in KS.HARNESSES[h].get('needs', [])]))
     ev = {'set': set_name, 'harnesses': len(hs), 'injected': [], 'build_and_verify_wall_s': 0}
     out_res = []
     t0 = time.time()
